@@ -1,4 +1,4 @@
-From Tabula Require Import model.C03_Interference gen.GenGlobals.
+From Tabula Require Import model.C03_Interference gen.GenGlobals gen.GenMapOrder.
 From Coq Require String.
 Open Scope Z_scope.
 
@@ -13,5 +13,7 @@ Definition run_C03 (v : val) : val :=
   match val_l v with
   | [VI 0] => VL (map (fun s => VB (string_bytes s)) mutable_globals)
   | [VI 1] => VL (map (fun s => VB (string_bytes s)) globals_with_method_calls)
+  | [VI 2] => VL (map (fun s => VB (string_bytes s)) aliased_globals)
+  | [VI 3] => VL (map (fun s => VB (string_bytes s)) map_order_sinks)
   | _ => bad_case
   end.
